@@ -33,19 +33,32 @@
 (*   model_ok           satisfiable but the exposed model (value()) is not *)
 (*                      0/1, inconsistent for -v, or violates a constraint *)
 (*   evalexpr_ok        evalexpr(expr) # value of expr under that model    *)
+(*     ev = "prop"   propagation probe (extension, thorough tier): rho = a *)
+(*                   partial assignment << <<var, 0|1|2>> .. >>; conflict, *)
+(*                   implied = what pysat's propagate() reports for the    *)
+(*                   manager's REAL clause list under rho (user literals)  *)
+(*   propagation_sound  propagate() reports a conflict although an allowed *)
+(*                      assignment extends rho, or implies a literal some  *)
+(*                      allowed extension contradicts (a consequence of    *)
+(*                      exactness, hence a property clause)                *)
 (* Model conformance (-> drift): refusal as specified; store and diagram   *)
-(* id as specified by Robdd!Build.                                         *)
+(* id as specified by Robdd!Build; propagation result as UnitProp yields   *)
+(* on the specified CNF.                                                   *)
+(* Information only (-> ac, printed with the verdict, no claim attached):  *)
+(* for every probe whether propagation was complete ("undetected": rho has *)
+(* no allowed extension but no conflict was found; "incomplete": some      *)
+(* entailed literal was not derived).                                      *)
 (***************************************************************************)
 EXTENDS SatLayer, IOUtils
 
 Batch == JsonDeserialize(IOEnv.TRACE_FILE)
 
-VARIABLES tid, l, fails, drift
-tvars == <<allvars, tid, l, fails, drift>>
+VARIABLES tid, l, fails, drift, ac
+tvars == <<allvars, tid, l, fails, drift, ac>>
 
 T == Batch[tid]
 
-TraceInit == /\ tid \in 1..Len(Batch) /\ l = 1 /\ fails = {} /\ drift = {}
+TraceInit == /\ tid \in 1..Len(Batch) /\ l = 1 /\ fails = {} /\ drift = {} /\ ac = {}
              /\ SInit
 
 \* the driver's number of TLC's assignment a, and TLC's assignment of an exposed model
@@ -68,6 +81,18 @@ SolveClauses(e, mg) ==
                              /\ \A i \in DOMAIN T.vars : e.negs[i] = 1 - e.model[i]
                              /\ MIdx(e.model) \in mg.allowed,
    evalexpr_ok |-> good => \A j \in DOMAIN e.probes : e.evals[j] = Eval(e.probes[j], MIdx(e.model))]
+
+ObsImplied(e) == { IF e.implied[i][2] = 1 THEN UVar(e.implied[i][1]) ELSE -UVar(e.implied[i][1]) : i \in DOMAIN e.implied }
+PropClauses(e, mg) ==
+  LET Sr == { a \in mg.allowed : Extends(a, e.rho) } IN
+  [propagation_sound |-> (e.conflict = 1 => Sr = {}) /\ (Sr # {} => ObsImplied(e) \subseteq Entailed(mg.allowed, e.rho))]
+PropStrength(e, mg) ==
+  LET Sr == { a \in mg.allowed : Extends(a, e.rho) } IN
+  IF Sr = {} THEN (IF e.conflict = 1 THEN "ok" ELSE "undetected")
+  ELSE IF Entailed(mg.allowed, e.rho) \subseteq ObsImplied(e) THEN "ok" ELSE "incomplete"
+PropConforms(e, mg) ==
+  LET U == UPOn(mg.cnf, e.rho) IN
+  (e.conflict = 1) = U.conflict /\ (~U.conflict => ObsImplied(e) = U.implied)
 
 Record(cl) == fails' = fails \cup { <<l, c>> : c \in { d \in DOMAIN cl : ~cl[d] } }
 
@@ -92,15 +117,22 @@ Step == /\ l <= Len(T.events)
                           /\ UNCHANGED <<store, drift>>
                   /\ lastm' = e.m /\ lastc' = e.c /\ lastref' = (e.refused = 1)
                   /\ UNCHANGED <<root, lastq, lastdec, nb>>
+             [] e.ev = "prop" ->
+                  LET mg == mgrs[e.m] IN
+                  /\ Record(PropClauses(e, mg))
+                  /\ drift' = IF T.detail = 0 \/ PropConforms(e, mg) THEN drift ELSE drift \cup {<<l, "propagation">>}
+                  /\ UNCHANGED <<mgrs, store, root, lastq, lastdec, nb, lastm, lastc, lastref>>
              [] OTHER ->      \* "solve"
                   /\ Record(SolveClauses(e, mgrs[e.m]))
                   /\ UNCHANGED <<mgrs, drift, store, root, lastq, lastdec, nb, lastm, lastc, lastref>>
+        /\ ac' = IF T.events[l].ev = "prop" /\ PropStrength(T.events[l], mgrs[T.events[l].m]) # "ok"
+                 THEN ac \cup {<<l, PropStrength(T.events[l], mgrs[T.events[l].m])>>} ELSE ac
         /\ l' = l + 1 /\ UNCHANGED <<vars, hist, tid>>
 
 Done == /\ l = Len(T.events) + 1
         /\ l' = l + 1
-        /\ PrintT(ToJson([tag |-> "VERDICT", id |-> T.id, fails |-> fails, drift |-> drift]))
-        /\ UNCHANGED <<allvars, tid, fails, drift>>
+        /\ PrintT(ToJson([tag |-> "VERDICT", id |-> T.id, fails |-> fails, drift |-> drift, ac |-> ac]))
+        /\ UNCHANGED <<allvars, tid, fails, drift, ac>>
 
 TraceNext == Step \/ Done
 TraceSpec == TraceInit /\ [][TraceNext]_tvars
